@@ -265,6 +265,7 @@ type Part struct {
 	Half     bool // composite: child options (NULL,k2) and (k1,NULL)
 	Identity bool // only the assignment child i -> parent i (further children -> NULL)
 	CoreOnly bool
+	Fault    int // cursor faults on every graph of the part: 0 none, 1 for the core checks, 2 for all checks
 }
 
 func nullKey(n int) K { return make(K, n) }
@@ -596,24 +597,30 @@ func parts(tier string) []*Part {
 		add(&Part{Name: "poly/K", Fam: f["poly"], KeyLists: cat(ordered(u1, 1), ordered(u1, 2)), MaxC: 2, DelMode: 1, CoreOnly: true})
 		add(&Part{Name: "poly/S", Fam: f["poly"], KeyLists: single12, MaxC: 3, DelMode: 2})
 		add(&Part{Name: "self/K", Fam: f["self"], KeyLists: cat(ordered(u1, 1), ordered(u1, 2)), DelMode: 1, CoreOnly: true})
-		add(&Part{Name: "self/S", Fam: f["self"], KeyLists: cat(single12[3:5], single3), DelMode: 1})
+		add(&Part{Name: "self/S", Fam: f["self"], KeyLists: cat(single12[3:5], single3), DelMode: 1, Fault: 1})
 		add(&Part{Name: "m2m/K", Fam: f["m2m"], KeyLists: cat(ordered(u1, 1), ordered(u1, 2)), MaxC: 2, DelMode: 1, CoreOnly: true})
 		add(&Part{Name: "m2m/S", Fam: f["m2m"], KeyLists: single12, MaxC: 3, DelMode: 1})
 		add(&Part{Name: "xm2m/K", Fam: f["xm2m"], KeyLists: cat(ordered(u2, 1), ordered(u2, 2)), MinC: 1, MaxC: 1, DelMode: 0, CoreOnly: true})
 		add(&Part{Name: "xm2m/S", Fam: f["xm2m"], KeyLists: css12, MaxC: 3, DelMode: 1})
 		// three parents (fixed key lists): needed for anything that involves a
 		// parent and two different later parents
-		add(&Part{Name: "str/S3", Fam: f["str"], KeyLists: single3, MaxC: 3, DelMode: 1})
-		add(&Part{Name: "css/S3", Fam: f["css"], KeyLists: css3, MaxC: 2, DelMode: 1})
-		add(&Part{Name: "m2m/S3", Fam: f["m2m"], KeyLists: single3, MinC: 2, MaxC: 2, DelMode: 1})
-		add(&Part{Name: "xm2m/S3", Fam: f["xm2m"], KeyLists: css3, MinC: 2, MaxC: 2, DelMode: 1})
+		add(&Part{Name: "str/S3", Fam: f["str"], KeyLists: single3, MaxC: 3, DelMode: 1, Fault: 1})
+		add(&Part{Name: "css/S3", Fam: f["css"], KeyLists: css3, MaxC: 2, DelMode: 1, Fault: 1})
+		add(&Part{Name: "m2m/S3", Fam: f["m2m"], KeyLists: single3, MinC: 2, MaxC: 2, DelMode: 1, Fault: 1})
+		add(&Part{Name: "xm2m/S3", Fam: f["xm2m"], KeyLists: css3, MinC: 2, MaxC: 2, DelMode: 1, Fault: 1})
+		// F parts: small graphs on which cursor faults are explored for every check of the family
+		add(&Part{Name: "str/F", Fam: f["str"], KeyLists: single12[3:4], MaxC: 2, DelMode: 2, Fault: 2})
+		add(&Part{Name: "int/F", Fam: f["int"], KeyLists: int12[2:3], MinC: 1, MaxC: 2, DelMode: 1, Fault: 1})
+		add(&Part{Name: "csi/F", Fam: f["csi"], KeyLists: csi12[3:4], MinC: 1, MaxC: 2, DelMode: 1, Fault: 1})
+		add(&Part{Name: "poly/F", Fam: f["poly"], KeyLists: single12[3:4], MinC: 1, MaxC: 2, DelMode: 1, Fault: 2})
+		add(&Part{Name: "nest/F", Fam: f["nest"], KeyLists: single12[3:4], MinC: 1, MaxC: 2, MaxT: 2, DelMode: 1, Fault: 2})
 		add(&Part{Name: "nest/K", Fam: f["nest"], KeyLists: cat(ordered(u1, 1), ordered(u1, 2)), MinC: 1, MaxC: 2, MaxT: 2, DelMode: 0, CoreOnly: true})
 		add(&Part{Name: "nest/S", Fam: f["nest"], KeyLists: single12[3:5], MaxC: 3, MaxT: 2, DelMode: 1})
 		return ps
 	}
 	add(&Part{Name: "str/K", Fam: f["str"], KeyLists: cat(ordered(u1, 1), ordered(u1, 2)), MaxC: 3, DelMode: 2})
 	add(&Part{Name: "str/K3", Fam: f["str"], KeyLists: ordered(u1, 3), MaxC: 3, DelMode: 1, CoreOnly: true})
-	add(&Part{Name: "str/S", Fam: f["str"], KeyLists: single3, MaxC: 3, DelMode: 2})
+	add(&Part{Name: "str/S", Fam: f["str"], KeyLists: single3, MaxC: 3, DelMode: 2, Fault: 1})
 	add(&Part{Name: "int/K", Fam: f["int"], KeyLists: cat(ordered(uI, 1), ordered(uI, 2), ordered(uI, 3)), MaxC: 3, DelMode: 2})
 	add(&Part{Name: "css/K", Fam: f["css"], KeyLists: cat(ordered(u2, 1), ordered(u2, 2)), MinC: 1, MaxC: 3, DelMode: 1, CoreOnly: true})
 	add(&Part{Name: "css/K3", Fam: f["css"], KeyLists: ordered(u2, 3), MinC: 3, MaxC: 3, DelMode: 0, Identity: true, CoreOnly: true})
@@ -621,14 +628,22 @@ func parts(tier string) []*Part {
 	add(&Part{Name: "csi/K", Fam: f["csi"], KeyLists: cat(ordered(uSI, 1), ordered(uSI, 2)), MinC: 1, MaxC: 3, DelMode: 1, CoreOnly: true})
 	add(&Part{Name: "csi/S", Fam: f["csi"], KeyLists: cat(csi12, csi3), MaxC: 3, DelMode: 2, Half: true})
 	add(&Part{Name: "poly/K", Fam: f["poly"], KeyLists: cat(ordered(u1, 1), ordered(u1, 2)), MaxC: 3, DelMode: 1, CoreOnly: true})
-	add(&Part{Name: "poly/S", Fam: f["poly"], KeyLists: cat(single12, single3), MaxC: 3, DelMode: 2})
+	add(&Part{Name: "poly/S", Fam: f["poly"], KeyLists: cat(single12, single3), MaxC: 3, DelMode: 2, Fault: 1})
 	add(&Part{Name: "self/K", Fam: f["self"], KeyLists: cat(ordered(u1, 1), ordered(u1, 2)), DelMode: 1})
 	add(&Part{Name: "self/K3", Fam: f["self"], KeyLists: ordered(u1, 3), DelMode: 1, CoreOnly: true})
-	add(&Part{Name: "self/S", Fam: f["self"], KeyLists: single3, DelMode: 1})
+	add(&Part{Name: "self/S", Fam: f["self"], KeyLists: single3, DelMode: 1, Fault: 2})
 	add(&Part{Name: "m2m/K", Fam: f["m2m"], KeyLists: cat(ordered(u1, 1), ordered(u1, 2)), MaxC: 3, DelMode: 1, CoreOnly: true})
-	add(&Part{Name: "m2m/S", Fam: f["m2m"], KeyLists: cat(single12, single3), MaxC: 3, DelMode: 1})
+	add(&Part{Name: "m2m/S", Fam: f["m2m"], KeyLists: cat(single12, single3), MaxC: 3, DelMode: 1, Fault: 1})
 	add(&Part{Name: "xm2m/K", Fam: f["xm2m"], KeyLists: cat(ordered(u2, 1), ordered(u2, 2)), MinC: 1, MaxC: 2, DelMode: 1, CoreOnly: true})
-	add(&Part{Name: "xm2m/S", Fam: f["xm2m"], KeyLists: cat(css12, css3), MaxC: 3, DelMode: 1})
+	add(&Part{Name: "xm2m/S", Fam: f["xm2m"], KeyLists: cat(css12, css3), MaxC: 3, DelMode: 1, Fault: 1})
+	add(&Part{Name: "str/F", Fam: f["str"], KeyLists: cat(single12[3:5], single3[:1]), MaxC: 2, DelMode: 2, Fault: 2})
+	add(&Part{Name: "int/F", Fam: f["int"], KeyLists: int12, MaxC: 2, DelMode: 2, Fault: 2})
+	add(&Part{Name: "css/F", Fam: f["css"], KeyLists: css12[3:8], MinC: 1, MaxC: 2, DelMode: 1, Fault: 2})
+	add(&Part{Name: "csi/F", Fam: f["csi"], KeyLists: csi12[3:6], MinC: 1, MaxC: 2, DelMode: 1, Fault: 2})
+	add(&Part{Name: "poly/F", Fam: f["poly"], KeyLists: cat(single12[3:5], single3[:1]), MinC: 1, MaxC: 2, DelMode: 1, Fault: 2})
+	add(&Part{Name: "m2m/F", Fam: f["m2m"], KeyLists: single3[:1], MinC: 2, MaxC: 2, DelMode: 1, Fault: 2})
+	add(&Part{Name: "xm2m/F", Fam: f["xm2m"], KeyLists: css3[:1], MinC: 2, MaxC: 2, DelMode: 1, Fault: 2})
+	add(&Part{Name: "nest/F", Fam: f["nest"], KeyLists: single12[3:5], MinC: 1, MaxC: 2, MaxT: 2, DelMode: 1, Fault: 2})
 	add(&Part{Name: "nest/K", Fam: f["nest"], KeyLists: cat(ordered(u1, 1), ordered(u1, 2)), MinC: 1, MaxC: 2, MaxT: 3, DelMode: 1, CoreOnly: true})
 	add(&Part{Name: "nest/S", Fam: f["nest"], KeyLists: cat(single12[3:5], single3[:1]), MaxC: 3, MaxT: 3, DelMode: 1})
 	return ps
@@ -639,9 +654,10 @@ func parts(tier string) []*Part {
 
 // Case is the replay format: one graph and one check.
 type Case struct {
-	Graph    *Graph `json:"graph"`
-	Check    string `json:"check"`
-	Readable string `json:"readable,omitempty"`
+	Graph    *Graph      `json:"graph"`
+	Check    string      `json:"check"`
+	Fault    *FaultPoint `json:"cursor_fault,omitempty"`
+	Readable string      `json:"readable,omitempty"`
 }
 
 type job struct {
@@ -715,6 +731,17 @@ func report(run *mc.Run, c *Check, g *Graph, res Result) {
 	run.Violation(tagsOf(c, g), msg, Case{Graph: g, Check: c.Name, Readable: g.String()})
 }
 
+func reportFault(run *mc.Run, c *Check, g *Graph, fp FaultPoint, kind string, res Result) {
+	var lines []string
+	for _, p := range res.Problems {
+		lines = append(lines, "  "+p.Kind+": "+p.Text)
+	}
+	msg := fmt.Sprintf("%s\ncheck: %s\ngraph: %s\ncursor fault: the result set of recorded event #%d fails before row %d\n%s\nobserved: %s",
+		kind, c.Name, g.String(), fp.Query, fp.Row, strings.Join(lines, "\n"), strings.Join(res.Obs, " "))
+	f := fp
+	run.Violation(tagsOf(c, g), msg, Case{Graph: g, Check: c.Name, Fault: &f, Readable: g.String()})
+}
+
 func main() {
 	args := mc.ParseArgs()
 	run := mc.NewRun("C11", args.Tier, "exploration")
@@ -739,6 +766,30 @@ func main() {
 			fmt.Printf("## %s\n  %s\n", t, strings.Join(e.DumpTable(t), "\n  "))
 		}
 		e.Rec.Reset()
+		if c.Fault != nil {
+			fmt.Printf("check: %s\ngraph: %s\ninput tags: %v\ncursor fault: the result set of recorded event #%d fails before row %d\n", ck.Name, c.Graph.String(), tagsOf(ck, c.Graph), c.Fault.Query, c.Fault.Row)
+			e.Rec.Pause()
+			base := runRecorded(e, ck, c.Graph, nil)
+			fr := runRecorded(e, ck, c.Graph, c.Fault)
+			fmt.Printf("fault reached: %v\nobserved: %s\n", fr.fired, strings.Join(fr.res.Obs, " "))
+			for _, p := range fr.res.Problems {
+				fmt.Printf("  %s: %s\n", p.Kind, p.Text)
+			}
+			bad := false
+			if fr.leak != "" {
+				fmt.Printf("VIOLATES: driver resources left open: %s\n", fr.leak)
+				bad = true
+			}
+			if s := fr.res.silent(); !subsetProblems(s, base.res.silent()) {
+				fmt.Println("VIOLATES: a call returned Error == nil although its result disagrees with the reference join (cursor fault swallowed)")
+				bad = true
+			}
+			if bad {
+				os.Exit(1)
+			}
+			fmt.Println("verdict: every call reported an error or agrees with the reference join; nothing left open")
+			return
+		}
 		res := ck.Run(e, c.Graph)
 		fmt.Printf("check: %s\ngraph: %s\ninput tags: %v\nstatements:\n", ck.Name, c.Graph.String(), tagsOf(ck, c.Graph))
 		for _, ev := range e.Rec.Events() {
@@ -800,6 +851,7 @@ func main() {
 	}
 
 	st := &stats{}
+	fst := &faultStats{}
 	distinct := &mc.Set{}
 	outcomes := &mc.Set{}
 	samples := &mc.Samples{N: 40}
@@ -917,6 +969,18 @@ func main() {
 						report(run, c, j.g, res)
 					}
 				}
+				if j.part.Fault > 0 {
+					fchecks := f.Checks
+					if j.part.Fault == 1 {
+						fchecks = coreOf(f)
+					}
+					for _, c := range fchecks {
+						c := c
+						exploreFaults(e, c, j.g, fst, func(fp FaultPoint, kind string, res Result) {
+							reportFault(run, c, j.g, fp, kind, res)
+						})
+					}
+				}
 			}
 		}(i)
 	}
@@ -931,6 +995,14 @@ func main() {
 			run.HarnessError("vacuous: only %d graphs with colliding joined keys", st.nvCollide)
 		}
 	}
+	if run.NumViolations() == 0 {
+		if fst.truncatingError < 500 {
+			run.HarnessError("vacuous: only %d cursor faults that cut a result set short were reported as an error", fst.truncatingError)
+		}
+		if fst.notReached*10 > fst.points {
+			run.HarnessError("cursor faults: %d of %d fault points were not reached in the faulted run", fst.notReached, fst.points)
+		}
+	}
 	partCounts := map[string]interface{}{}
 	var rule []string
 	for _, p := range ps {
@@ -939,7 +1011,7 @@ func main() {
 		if p.CoreOnly {
 			nchecks = len(coreOf(p.Fam))
 		}
-		rule = append(rule, fmt.Sprintf("%s: %d parent key lists, %d..%d children, del-mode %d, half-null %v, %d checks", p.Name, len(p.KeyLists), p.MinC, p.MaxC, p.DelMode, p.Half, nchecks))
+		rule = append(rule, fmt.Sprintf("%s: %d parent key lists, %d..%d children, del-mode %d, half-null %v, %d checks, fault=%d", p.Name, len(p.KeyLists), p.MinC, p.MaxC, p.DelMode, p.Half, nchecks, p.Fault))
 	}
 	nchecks := 0
 	for _, f := range families {
@@ -950,19 +1022,29 @@ func main() {
 	run.Assume("many-to-many far-side rows and nested middle rows never have the empty string as primary key, for the same reason")
 	run.Assume("has-one with several eligible rows: any one of them is accepted (the property does not say which); association Joins is compared as a LEFT JOIN row set")
 	run.Assume("the plain (no eager loading) read of the parents used for Association().Find is trusted")
+	run.Assume("cursor faults: one fault per execution; the fault is an error returned by the driver's Rows.Next before a given row (recsqlite RowFault); parts marked fault=1 explore the core checks, fault=2 all checks of the family, other parts none")
 	run.Finish(map[string]interface{}{
-		"evaluations":                           st.evals,
-		"distinct_nontrivial":                   distinct.Len(),
-		"rule":                                  "every data graph of the parts listed (K parts: every ordered list of distinct parent key tuples over the key alphabet " + fmt.Sprint(alpha) + " (ints " + fmt.Sprint(alphaInt) + "), every child -> parent-or-NULL assignment, soft-delete choice per del-mode (0 none, 1 none or one child, 2 none, one child or one parent) x the core loader/shape checks; S parts: fixed key lists x every graph of the size x all loader/shape checks of the family; composite S parts also enumerate half-NULL foreign keys); non-trivial = a graph in which two live parents with different keys both own rows, or whose parent key tuples collide after joining with '_' (distinct by graph hash). Parts: " + strings.Join(rule, "; "),
-		"samples":                               samples.List(),
-		"exhaustive":                            exhaustive,
-		"graphs":                                st.graphs,
-		"checks_defined":                        nchecks,
-		"nv_graphs_two_keyed_parents_with_rows": st.nvCross,
-		"nv_graphs_with_colliding_joined_keys":  st.nvCollide,
-		"graphs_with_soft_deleted_child":        st.nvSoftDel,
-		"evaluations_with_duplicate_parents":    st.nvDupShape,
-		"distinct_observed_outcomes":            outcomes.Len(),
-		"parts":                                 partCounts,
+		"evaluations":                             st.evals,
+		"distinct_nontrivial":                     distinct.Len(),
+		"rule":                                    "every data graph of the parts listed (K parts: every ordered list of distinct parent key tuples over the key alphabet " + fmt.Sprint(alpha) + " (ints " + fmt.Sprint(alphaInt) + "), every child -> parent-or-NULL assignment, soft-delete choice per del-mode (0 none, 1 none or one child, 2 none, one child or one parent) x the core loader/shape checks; S parts: fixed key lists x every graph of the size x all loader/shape checks of the family; composite S parts also enumerate half-NULL foreign keys); non-trivial = a graph in which two live parents with different keys both own rows, or whose parent key tuples collide after joining with '_' (distinct by graph hash). Parts: " + strings.Join(rule, "; "),
+		"samples":                                 samples.List(),
+		"exhaustive":                              exhaustive,
+		"graphs":                                  st.graphs,
+		"checks_defined":                          nchecks,
+		"nv_graphs_two_keyed_parents_with_rows":   st.nvCross,
+		"nv_graphs_with_colliding_joined_keys":    st.nvCollide,
+		"graphs_with_soft_deleted_child":          st.nvSoftDel,
+		"evaluations_with_duplicate_parents":      st.nvDupShape,
+		"distinct_observed_outcomes":              outcomes.Len(),
+		"cursor_fault_operations":                 fst.ops,
+		"cursor_fault_queries":                    fst.queries,
+		"cursor_fault_points":                     fst.points,
+		"cursor_fault_points_not_reached":         fst.notReached,
+		"cursor_faults_ended_in_error":            fst.endedError,
+		"cursor_faults_ended_complete":            fst.endedComplete,
+		"cursor_faults_truncating":                fst.truncating,
+		"cursor_faults_truncating_ended_in_error": fst.truncatingError,
+		"cursor_faults_truncating_ended_complete": fst.truncatingComplete,
+		"parts": partCounts,
 	})
 }
